@@ -120,7 +120,9 @@ func (t *Transport) Handshake(ctx context.Context, req *transport.Request) (tran
 
 func handshakeSmart(resp *http.Response, req *transport.Request, discoverService string, client *http.Client, authorizer func(*http.Request) error) (transport.Session, error) {
 	defer resp.Body.Close() //nolint:errcheck
-	rd := bufio.NewReader(resp.Body)
+	// PeekLine and DiscoverVersion look at a whole packet in the buffer: it
+	// has to hold one of the maximal size.
+	rd := bufio.NewReaderSize(resp.Body, pktline.MaxSize)
 
 	_, prefix, err := pktline.PeekLine(rd)
 	if err != nil {
